@@ -852,7 +852,8 @@ pub fn c16_case(rng: &mut Rng, _i: u64, st: &mut Stats) -> CaseOutcome {
         // numbers a detour through a float, a 32-bit or a signed type would not survive (as pure
         // data every usize is a legal token type and a legal mode index; sorted, distinct)
         if rng.chance(1, 3) {
-            let big = [(1usize << 53) + 1, (1 << 53) + 3, u32::MAX as usize + 2, (1 << 62) + 1, isize::MAX as usize, isize::MAX as usize + 2, usize::MAX - 1, usize::MAX];
+            // ascending (the transition list must stay sorted by token type)
+            let big = [u32::MAX as usize + 2, (1usize << 53) + 1, (1 << 53) + 3, (1 << 62) + 1, isize::MAX as usize, isize::MAX as usize + 2, usize::MAX - 1, usize::MAX];
             let mut k = rng.below(big.len());
             for _ in 0..rng.range(1, 3) {
                 if k < big.len() {
